@@ -46,6 +46,11 @@ let run (t : string list) : string =
         (match value v with
          | None -> "BADCASE"
          | Some sv -> (match SurfEnc.encode_value sv with Some b -> hex_of_bytes b | None -> "N"))
+    | ["surf_enc2"; a; b] ->
+        let k v = match value v with
+          | None -> raise (Bad "BADCASE")
+          | Some sv -> (match SurfEnc.encode_value sv with Some b -> hex_of_bytes b | None -> "N") in
+        let ka = k a in let kb = k b in ka ^ " " ^ kb
     | "surf_trie" :: dir :: incl :: target :: keys ->
         let trie = Trie.t_build (Stdlib.List.map bytes_of_hex keys) in
         let tg = bytes_of_hex target in
